@@ -25,6 +25,11 @@ CLAIMS = {
         "Trusted: symx interception layer incl. the canonical-key groupby patch (hash buckets of pandas are made to respect solver-decided equality), z3. Chain harness uses concrete unequal weights.",
         "DESIGN.md 4/C14",
     ),
+    "C16": (
+        "The real by_gene, do_genemetrics (with and without segments), squash_genes and do_breaks run on 4-6 bins over 1-2 chromosomes whose gene names are solver-chosen from {G1, G2, Antitarget, '-', 'CGH'} under the statement's contiguity precondition, with default and filtered row index; log2, weights, depths, coordinates, the threshold and the segment boundary are symbolic. z3 proves per path that the yielded index sets equal the statement's partition (each bin exactly once), that exactly the genes reaching the threshold with enough bins are reported with true start/end/count/summed weight/weight-averaged depth/weighted mean log2, the per-segment gene parts, squashed coordinates, and the break list with its left/right counts.",
+        "Trusted: symx interception layer, z3. Gene names are concrete strings per path (forked choice); bins naming several genes are outside the precondition; squash_genes gets a mean as summary function.",
+        "DESIGN.md 4/C16",
+    ),
     "C19": (
         "The real descriptives (weighted_median, MAD, IQR, gapper, Qn, weighted MAD/std, on_array/on_weighted_array NaN handling; biweight location/midvariance only for n <= 2 and constant data) and smoothers (rolling_median through a window model of Series.rolling, unweighted kaiser, weighted savgol via convolve_weighted, _width2wing/_pad_array/check_inputs) run on symbolic vectors of length 1..4 (thorough up to 6); z3 proves per path non-negativity, zero on constants, shift invariance, scale equivariance (concrete factors), equality with independent closed-form definitions (sorting networks of If-terms), the half-weight clauses of the weighted median and its equality with the ordinary median for equal weights, one finite value per input, range and constant reproduction of the smoothers, and rolling median = median of the mirrored window.",
         "Trusted: symx interception layer (rolling/convolve/percentile models are compared with numpy/pandas by setup.sh's selfcheck), z3; sqrt uninterpreted. Not covered: biweight numerics beyond n = 2, modal_location, unweighted savgol (compiled scipy); linear filters carry a 1e-9 slack.",
